@@ -101,7 +101,7 @@ def fresh_value(ex, base, t):
 class Run:
   """One symbolic execution of a repo function with fresh parameters."""
 
-  def __init__(self, key, closure=None, invariants=None, counters=(), args=None, contracts=None, unroll_limit=40, pre=None, fast=False):
+  def __init__(self, key, closure=None, invariants=None, counters=(), args=None, contracts=None, unroll_limit=40, pre=None, fast=False, setup=None):
     self.key = key
     self.info = extract.get_func(key)
     self.ex = Exec()
@@ -132,6 +132,8 @@ class Run:
       self.fr.env[a.arg] = v
     self.requires = []  # named preconditions (z3)
     self.qvars = {}
+    if setup is not None:
+      setup(self)  # ghost functions / axioms that invariants evaluated during execution may need
     if pre:
       for text in pre:
         self.require(text)
@@ -196,6 +198,7 @@ def eval_contract_expr(ex, fr, text, extra_env, params=None, result=None):
     env[f"dim{i}"] = ex.dims[i]
   if params:
     env.update(params)
+  env.update(getattr(ex, "ghosts", {}))
   env.update(extra_env)
   if result is not None:
     env["result"] = result
